@@ -355,3 +355,120 @@ def module_search_order_rule(ctx, res, rule: str) -> None:
                 f"_Project.find_module looks into the importing module's own folder before {src}(): inside a package, `import utils` resolves to the "
                 "sibling pkg/utils.py although the interpreter imports the top-level (or standard-library) utils, so occurrences are attributed to the wrong module",
                 function=f.qualname)
+
+
+def relative_level_rule(ctx, res, rule: str) -> None:
+    """Shared by C05/C07: `from ..x import y` and `from .. import y` both climb (level - 1) packages before anything is
+    looked up.  In find_relative_module every value-returning exit is reached only through the loop over
+    range(level - 1) (must-pass-through), so the empty-name case cannot answer with the importer's own package."""
+    from ..cfg import CFG
+
+    idx = ctx.idx
+    f = idx.need_func("rope.base.project._Project.find_relative_module")
+    cfg = CFG(f.node)
+    ps = param_names(f.node)
+    level_p = ps[3] if len(ps) > 3 else None
+    is_climb = lambda nd: nd.kind == "loop" and nd.ast is not None and level_p is not None and any(
+        isinstance(y, ast.Name) and y.id == level_p for y in ast.walk(nd.ast.iter if isinstance(nd.ast, ast.For) else nd.ast))
+    if not any(is_climb(nd) for nd in cfg.nodes):
+        raise AnalysisError("anchor=_Project.find_relative_module: loop over the relative level not found")
+    rets = [nd for nd in cfg.nodes if nd.kind == "stmt" and isinstance(nd.ast, ast.Return) and nd.ast.value is not None
+            and not (isinstance(nd.ast.value, ast.Constant) and nd.ast.value.value is None)]
+    for k, nd in enumerate(rets, 1):
+        ok = cfg.must_pass_through(cfg.entry.id, nd.id, is_climb)
+        res.add(rule, f"find_relative_module|return#{k}", ok, f"{f.unit.rel}:{nd.lineno}",
+                "the answer is computed after climbing (level - 1) packages" if ok else
+                f"_Project.find_relative_module returns `{ast.unparse(nd.ast.value)}` on a path that skips the climb over the relative level: "
+                "`from .. import util` resolves to the importing module's own package instead of its parent, so the import is rewritten to the wrong "
+                "absolute name (relatives_to_absolutes, froms_to_imports) and moved/renamed modules reached that way are not found", function=f.qualname)
+    res.floor(rule, "value-returning exits of find_relative_module", len(rets), 2)
+
+
+# what each primitive of the file-system command classes may do to the disk (resolved callee names)
+FS_PRIMITIVE_EFFECTS = {
+    "create_file": {"open(w)"},
+    "create_folder": {"os.mkdir"},
+    "move": {"shutil.move", "os.rename", "os.replace"},
+    "remove": {"os.remove", "os.unlink", "shutil.rmtree", "os.rmdir"},
+    "write": {"open(w)"},
+    "read": set(),
+}
+
+
+def fs_primitive_purity_rule(ctx, res, rule: str) -> None:
+    """Shared by C10/C11: undo and rollback replay the INVERSE PRIMITIVE (move back, remove what was created).  That is
+    only the inverse if each primitive of the plain file-system commands does its one thing: a move that also creates
+    directories, a create that also removes, ... leaves effects no inverse knows about."""
+    idx = ctx.idx
+    cls = idx.need_class("rope.base.fscommands.FileSystemCommands")
+    n = 0
+    for mname, allowed in sorted(FS_PRIMITIVE_EFFECTS.items()):
+        m = cls.methods.get(mname)
+        if m is None:
+            raise AnalysisError(f"anchor=FileSystemCommands.{mname} missing")
+        n += 1
+        effects = []
+        for c in calls_in(m.node):
+            d = dotted(c.func)
+            r = idx.resolve_dotted(m.unit.modname, d) if d else None
+            if r and (r.startswith(("os.", "shutil.")) and r.split(".")[-1] in (
+                    "mkdir", "makedirs", "remove", "unlink", "rmdir", "removedirs", "rename", "renames", "replace", "move", "rmtree",
+                    "copy", "copy2", "copyfile", "copytree", "truncate", "chmod", "symlink", "link")):
+                effects.append((r, c))
+            elif call_name(c) == "open" and isinstance(c.func, ast.Name):
+                mode = c.args[1].value if len(c.args) > 1 and isinstance(c.args[1], ast.Constant) else "r"
+                for k in c.keywords:
+                    if k.arg == "mode" and isinstance(k.value, ast.Constant):
+                        mode = k.value.value
+                if any(ch in str(mode) for ch in "wax+"):
+                    effects.append(("open(w)", c))
+        extra = [(r, c) for r, c in effects if r not in allowed]
+        res.add(rule, f"FileSystemCommands.{mname}|one-effect", not extra, m.where if not extra else f"{m.unit.rel}:{extra[0][1].lineno}",
+                f"only {sorted(allowed) or 'no'} disk effect(s)" if not extra else
+                f"FileSystemCommands.{mname} also calls {extra[0][0]}: the change layer undoes and rolls back a {mname} by the inverse primitive only, "
+                "so what this extra call creates or removes stays behind after an undo or a rolled-back composite change (stray folders/files)",
+                function=m.qualname, effects=[r for r, _ in effects])
+    res.floor(rule, "file-system primitives", n, 5)
+
+
+def soa_observer_rule(ctx, res, rule: str) -> None:
+    """Shared by C09/C10: the automatic static-object-analysis callback runs inside every file write, AFTER the bytes are
+    on disk and before the change is recorded as done.  Anything it lets escape turns a performed write into a "failed"
+    change that is neither rolled back nor recorded.  The analysis evaluates calls into other modules lazily and meets
+    ModuleSyntaxError there; every analysing call of the callback lies in a construct that absorbs that class."""
+    idx = ctx.idx
+    f = idx.need_func("rope.base.pycore.perform_soa_on_changed_scopes")
+    target = "rope.base.exceptions.ModuleSyntaxError"
+    idx.need_class(target)
+    sites = [c for c in calls_in(f.node) if call_name(c) in ("analyze_module", "analyze_object")]
+    if not sites:
+        raise AnalysisError("anchor=perform_soa_on_changed_scopes: analysing call not found")
+
+    def absorbs(expr: ast.AST) -> bool:
+        es = expr.elts if isinstance(expr, ast.Tuple) else [expr]
+        for e in es:
+            q = idx.resolve(f.unit.modname, e)
+            if q and q in idx.mro(target):
+                return True
+            if isinstance(e, ast.Name) and e.id in ("Exception", "BaseException"):
+                return True
+        return False
+
+    for k, c in enumerate(sites, 1):
+        ok = False
+        for x in walk_local(f.node):
+            inside = lambda body: any(y is c for s_ in body for y in ast.walk(s_))
+            if isinstance(x, ast.With) and inside(x.body):
+                for it in x.items:
+                    ce = it.context_expr
+                    if isinstance(ce, ast.Call) and call_name(ce) == "suppress" and any(absorbs(a) for a in ce.args):
+                        ok = True
+            if isinstance(x, ast.Try) and inside(x.body):
+                for h in x.handlers:
+                    if h.type is None or absorbs(h.type):
+                        ok = True
+        res.add(rule, f"perform_soa_on_changed_scopes|absorbs-syntax-errors#{k}", ok, f"{f.unit.rel}:{c.lineno}",
+                "the analysis runs inside a construct that absorbs ModuleSyntaxError" if ok else
+                "perform_soa_on_changed_scopes calls the analysis outside any suppress/try that absorbs ModuleSyntaxError: the callback runs inside "
+                "every file write after the bytes are on disk; a module it evaluates lazily (an unparsable module on the python path) makes the "
+                "write 'fail' with the file already rewritten, not rolled back and not in the undo list", function=f.qualname)
